@@ -53,8 +53,8 @@ def plan(tier):
 
     shards = []
     if tier == "quick":
-        stride, nsh = 7, 12
-        per_a, na, per_b, nb = 110, 10, 110, 10
+        stride, nsh = 10, 12
+        per_a, na, per_b, nb = 90, 10, 100, 10
     else:
         stride, nsh = 1, 32
         per_a, na, per_b, nb = 900, 32, 900, 32
@@ -67,6 +67,11 @@ def plan(tier):
         shards.append({"kind": "hyp", "name": f"names{i}", "gen": "A", "examples": per_a, "focus": focus[i % len(focus)]})
     for i in range(nb):
         shards.append({"kind": "hyp", "name": f"expr{i}", "gen": "B", "examples": per_b, "mode": i % 4})
+    if tier == "thorough":
+        # coverage-guided campaign (atheris); bounded by -runs, the time bound is only a safety net (=> inconclusive)
+        for i in range(16):
+            shards.append({"kind": "enum", "name": f"atheris{i}", "fuzz": True, "gen": "AB"[i % 2], "runs": 2000,
+                           "max_time": 2400, "index": i})
     return shards
 
 
@@ -86,7 +91,51 @@ def strategy(shard):
 def enumerate(shard):  # noqa: A001 - name fixed by the module contract
     from cv.gen import c06_names
 
+    if shard.get("fuzz"):
+        return _atheris_cases(shard)
     return c06_names.enum_cases(shard)
+
+
+def _atheris_cases(shard):
+    """run the coverage-guided campaign in a subprocess (libFuzzer terminates its process) and hand the recorded
+    cases to the normal check path; a campaign that did not reach its run count is inconclusive (harness error)"""
+    import json
+    import os
+    import subprocess
+    import sys
+    import tempfile
+
+    from cv.harness.runner import HarnessError
+
+    fd, path = tempfile.mkstemp(prefix="c06_fuzz_", suffix=".jsonl")
+    os.close(fd)
+    seed = int(os.environ.get("VERIF_SEED", "1") or "1") * 1000 + int(shard.get("index", 0))
+    cmd = [sys.executable, "-m", "cv.gen.c06_fuzz", "--gen", shard["gen"], "--runs", str(shard["runs"]),
+           "--max-time", str(shard["max_time"]), "--seed", str(seed), "--out", path]
+    try:
+        try:
+            subprocess.run(cmd, stdout=subprocess.DEVNULL, stderr=subprocess.DEVNULL, timeout=shard["max_time"] + 300, check=False)
+        except subprocess.TimeoutExpired:
+            raise HarnessError(f"atheris campaign {shard['name']} inconclusive: time budget exceeded") from None
+        meta, cases = None, []
+        with open(path) as f:
+            for ln in f:
+                rec = json.loads(ln)
+                if "meta" in rec:
+                    meta = rec["meta"]
+                else:
+                    cases.append(rec["case"])
+    finally:
+        try:
+            os.unlink(path)
+        except OSError:
+            pass
+    if meta is None or not meta.get("done"):
+        raise HarnessError(f"atheris campaign {shard['name']} inconclusive: "
+                           f"{(meta or {}).get('execs', 0)} of {shard['runs']} executions within the time budget")
+    yield {"g": "meta", "atheris": {"execs": meta["execs"], "decoded": meta["decoded"], "status": meta["status"], "gen": meta["gen"]}}
+    for c in cases:
+        yield c
 
 
 def render(case):
@@ -100,6 +149,8 @@ def render(case):
 
 
 def view(case):
+    if case["g"] == "meta":
+        return case
     src, top, ckw = render(case)
     return {"case": {k: v for k, v in case.items() if k != "stim"}, "python": src, "compile_kwargs": {k: sorted(v) for k, v in ckw.items()}}
 
@@ -310,7 +361,7 @@ def primary(classes):
 def broken_decls(decls):
     """classes of declarations whose name is not even identifier-shaped (empty, only underscores, leading digit)"""
     bad = [cls for nm, cls in decls.items() if not re.fullmatch(r"[a-z][a-z0-9_]*", nm) and not nm.startswith("'")
-           and (nm == "" or nm.strip("_") == "" or nm[0].isdigit())]
+           and (nm.strip("_") == "" or nm.strip("_")[0].isdigit())]
     return primary("+".join(sorted({c for b in bad for c in b.split("+")}))) if bad else None
 
 
@@ -348,7 +399,11 @@ def classify(e, lines, decls, reserved93):
             sig["form"] = "suffixed" if re.fullmatch(r".*[A-Za-z_]\d+", ident) else "other"
         if ident:
             sig["near"] = primary(near_decl(decls, ident))
-    elif e.rule == "S-struct":
+    elif tier == 2 and isinstance(sig.get("where"), str):
+        # the analyser's `where` names the object ("signal assignment to buffer_o0"): keep the construct only
+        sig["where"] = re.sub(r"^(signal assignment|variable assignment|initial value|association of port|argument|index of target)\b.*$",
+                              r"\1", sig["where"])
+    if e.rule == "S-struct":
         m = re.search(r"of undeclared entity (\S+)|entity (\S+) has no architecture|entity (\S+) has not been analysed", e.msg)
         if m:
             nm = next(g for g in m.groups() if g)
@@ -397,6 +452,13 @@ def check(case):
 
     out = Outcome()
     gen = case["g"]
+    if gen == "meta":  # bookkeeping record of a coverage-guided campaign (see _atheris_cases)
+        m = case["atheris"]
+        out.counters.update({"atheris_execs": m["execs"], "atheris_decoded": m["decoded"]})
+        for k, v in m["status"].items():
+            out.counters["atheris_status_" + k] = v
+        out.labels.append("atheris:" + m["gen"])
+        return out
     out.labels.append(f"gen:{gen}")
     if gen == "A":
         from cv.gen import c06_names
@@ -444,6 +506,12 @@ def check(case):
         cl = [classify(e, lines, decls, res93) + (e,) for e in d.errors]
         top = min(t for t, _, _ in cl)
         redecl = redeclared_predefined(decls) if top == 2 else {}
+        if top == 2:
+            # an enumerator that a process variable / other declaration of the same name hides (nested region: no S-dup)
+            for nm, cls in decls.items():
+                parts = cls.split("+")
+                if "enum-literal" in parts and len(parts) > 1:
+                    redecl[nm] = "enum-literal"
         seen = set()
         for t, sig, e in cl:
             if t != top:
